@@ -277,11 +277,72 @@ theorem range_rfc_suffix (n len : Nat) (tail : Str) (ht : TailOK tail) :
   · have : ¬ ((0:Int) ≤ max 0 ((len:Int) - n) ∧ max 0 ((len:Int) - n) < len ∧ (len:Int) ≤ len) := by omega
     rw [if_neg this, if_neg h]
 
+/-- a first range-spec without any `-` (`bytes=5`, `bytes=5,0-1`, `bytes=`) names no range: there is
+nothing a 206 could describe, the answer is 416 whatever follows the first comma -/
+theorem range_no_dash_none (x tail : Str) (len : Nat) (hx : ',' ∉ x ∧ '-' ∉ x) (ht : TailOK tail) :
+    firstRange ("bytes=".toList ++ (x ++ tail)) len = none := by
+  unfold firstRange
+  rw [splitFirstSub_prefix _ _ (by decide)]
+  simp only
+  rw [head_first _ _ hx.1 ht, splitOn1_nosep '-' x hx.2]
+
+theorem range_no_dash_416 (file : Bytes) (sched : List Nat) (isHead : Bool) (ims : Option Int) (mtime : Int)
+    (maxread : Nat) (x tail : Str) (hx : ',' ∉ x ∧ '-' ∉ x) (ht : TailOK tail)
+    (hims : ∀ t, ims = some t → t < mtime) :
+    staticFile file sched isHead (some ("bytes=".toList ++ (x ++ tail))) ims mtime maxread = .unsatisfiable := by
+  have hgo : ∀ clen, staticFile.go file sched isHead (some ("bytes=".toList ++ (x ++ tail))) maxread clen =
+      .unsatisfiable := by
+    intro clen
+    unfold staticFile.go
+    simp only
+    rw [if_neg (by simp), range_no_dash_none x tail clen hx ht]
+  unfold staticFile
+  cases ims with
+  | none => exact hgo _
+  | some t =>
+    have := hims t rfl
+    simp only
+    rw [if_neg (by omega)]
+    exact hgo _
+
+/-! ### the conditional date
+
+`parseDate` is `calendar.timegm` of the fields `parsedate_tz` returned, minus the date's own zone
+offset: by construction independent of the time zone of the process.  What is stated here is that
+it feeds the 304 decision as the property says and that it is the plain linear clock. -/
+
+/-- an If-Modified-Since date that names the modification instant or a later one yields 304, GET and
+HEAD alike, with or without a Range header -/
+theorem ims_date_304 (file : Bytes) (sched : List Nat) (isHead : Bool) (rh : Option Str) (f : DateFields)
+    (t mtime : Int) (maxread : Nat) (hp : parseDate f = some t) (h : t ≥ mtime) :
+    staticFile file sched isHead rh (parseDate f) mtime maxread = .notModified := by
+  rw [hp]; exact ims_304 file sched isHead rh t mtime maxread h
+
+/-- one second later on the wall clock (same zone offset) is one second later as an instant, and a
+zone offset of `z` seconds names the instant `z` seconds earlier -/
+theorem parseDate_linear (f : DateFields) (k z : Int) (t : Int) (hp : parseDate f = some t) :
+    parseDate { f with s := f.s + k, tz := f.tz + z } = some (t + k - z) := by
+  unfold parseDate timegm at hp ⊢
+  simp only at hp ⊢
+  split at hp
+  · rename_i hr
+    rw [if_pos hr]
+    simp only [Option.map_some, Option.some.injEq] at hp ⊢
+    omega
+  · simp at hp
+
 /-- non-vacuity: concrete instances on which the statements above speak -/
 example : firstRange "bytes=2-5,7-9".toList 4 = some (2, 4) := by decide
 example : firstRange "bytes=-3".toList 10 = some (7, 10) := by decide
 example : firstRange "bytes=9-".toList 4 = none := by decide
 example : TailOK ",7-9".toList := Or.inr ⟨_, rfl⟩
+example : firstRange "bytes=5,0-1".toList 10 = none := by decide
+example : (',' ∉ "5".toList ∧ '-' ∉ "5".toList) := by decide
+/-- `Sun, 06 Nov 1994 08:49:37 GMT`, the example date of RFC 7231; a leap day; the epoch; a zone offset -/
+example : parseDate ⟨1994, 11, 6, 8, 49, 37, 0⟩ = some 784111777 := by decide
+example : parseDate ⟨2020, 2, 29, 12, 0, 0, 0⟩ = some 1582977600 := by decide
+example : parseDate ⟨1970, 1, 1, 0, 0, 0, 0⟩ = some 0 := by decide
+example : parseDate ⟨2020, 7, 1, 14, 0, 0, 7200⟩ = parseDate ⟨2020, 7, 1, 12, 0, 0, 0⟩ := by decide
 
 /-- the streaming buffer the theorems are instantiated with is the one in the source -/
 theorem source_maxread_pos : 0 < Ombott.Gen.fileIterMaxread := by decide
